@@ -159,7 +159,7 @@ def generate(scratch, prog, t, ps, seeds, targets, actions, depth, num, seed, na
         f.write("---- MODULE ViewGenRun ----\nEXTENDS ViewGen\n====\n")
     cfg = os.path.join(d, "ViewGenRun.cfg")
     write_cfg(cfg, spec="Spec")
-    res = run_tlc(mod, cfg, lib_areas=("view",), workers=1, simulate=num, depth=2 * depth + 4, seed=seed,
+    res = run_tlc(mod, cfg, lib_areas=("view",), workers=1, simulate=num, depth=3 * depth + 6, seed=seed,
                   env={"GEN_FILE": gf}, timeout=900, heap="2g")
     hists = [h for h in res.printed_json() if isinstance(h, list)]
     return res, hists
